@@ -1,4 +1,4 @@
-//go:build verif
+//go:build verif && c07
 
 package encoding
 
@@ -187,6 +187,9 @@ func c07Once(c *c07Case, in c07Input, cx *c07Ctxs) (res c07Result) {
 		}
 	}()
 	if res.failure != "" {
+		if c.Type == "float" && c07BothInfNoNaN(in.val) {
+			res.kind = "float_encoder_panic_pos_and_neg_inf"
+		}
 		return
 	}
 	if err != nil {
@@ -248,6 +251,9 @@ func c07Once(c *c07Case, in c07Input, cx *c07Ctxs) (res c07Result) {
 		}
 		if !bytes.Equal(got, in.val) {
 			res.kind = "value_mismatch"
+			if c.Type == "float" && c07OnlyZeroSignDiffers(in.val, got) {
+				res.kind = "float_negative_zero_sign_lost"
+			}
 			res.failure = fmt.Sprintf("mode %d pass %d: %s", res.mode, pass, c07Diff(c.Type, in.val, got))
 			return
 		}
@@ -290,13 +296,31 @@ func c07Diff(typ string, want, got []byte) string {
 	return "equal"
 }
 
-// c07Classify gives defect-specific kinds for float value mismatches.
-func c07Classify(c *c07Case, in c07Input, r c07Result) string {
-	if r.kind != "value_mismatch" || c.Type != "float" {
-		return r.kind
+// c07BothInfNoNaN: the column holds +Inf and -Inf (and no NaN, which is routed to another compressor).
+func c07BothInfNoNaN(val []byte) bool {
+	var p, n bool
+	for _, f := range util.Bytes2Float64Slice(val) {
+		if math.IsNaN(f) {
+			return false
+		}
+		p = p || math.IsInf(f, 1)
+		n = n || math.IsInf(f, -1)
 	}
-	// sign of zero lost: every written value is +-0 or the difference is only between 0 and -0
-	return "float_" + r.kind
+	return p && n
+}
+
+// c07OnlyZeroSignDiffers: same length and every differing position was written as -0.0 and read as +0.0.
+func c07OnlyZeroSignDiffers(want, got []byte) bool {
+	if len(want) != len(got) {
+		return false
+	}
+	w, g := util.Bytes2Uint64Slice(want), util.Bytes2Uint64Slice(got)
+	for i := range w {
+		if w[i] != g[i] && !(w[i] == 1<<63 && g[i] == 0) {
+			return false
+		}
+	}
+	return true
 }
 
 type c07Runner struct {
